@@ -2016,6 +2016,7 @@ func (c *Ctx) progressRule(reach []*core.FuncInfo) {
 		c.S.Decide(ok, "C06", "TERM-PROGRESS", fi.QName(), c.P.Pos(fi.Decl.Pos()),
 			"the pass reports progress only in the block that deletes a definition (whose key is a member of the map by ENC-MAPKEY): each repeating pass strictly shrinks the definitions",
 			why+": the removal loop can repeat without shrinking the definitions (non-termination) or stop early")
+		c.fixpointCond(fi, reach)
 	}
 	if !found {
 		c.S.Undecided("C06", "TERM-PROGRESS", "anchor", "-", "no bool-returning pass deleting from a Definitions map found below Flatten")
@@ -2561,5 +2562,42 @@ func (c *Ctx) panicBoundary() {
 	}
 	if n < 3 {
 		c.S.Note("PANIC-BOUNDARY: fewer than three calls into the spec resolvers found (five on the pinned tree)")
+	}
+}
+
+// fixpointCond (C06, TERM-PROGRESS/loop): the loop that repeats the removal pass goes on exactly as long as the pass
+// reports progress — its condition is the call of the pass (or the flag the pass was assigned to) and nothing else.
+// Any other conjunct (a pass counter, a bound read off the shrinking definitions) stops the loop before the fixpoint:
+// definitions that became unused only in the last pass executed stay in the document.
+func (c *Ctx) fixpointCond(pass *core.FuncInfo, reach []*core.FuncInfo) {
+	n := 0
+	for _, g := range reach {
+		if g == pass {
+			continue
+		}
+		pm := c.parents(g)
+		info := c.info(g)
+		for _, call := range calls(g.Decl.Body) {
+			if c.P.StaticCallee(g, call) != pass.Obj {
+				continue
+			}
+			loop, _ := pm.Enclosing(call, func(x ast.Node) bool { _, ok := x.(*ast.ForStmt); return ok }).(*ast.ForStmt)
+			if loop == nil {
+				continue
+			}
+			n++
+			ok := true
+			if loop.Cond != nil {
+				cond := core.Unparen(loop.Cond)
+				_, isIdent := cond.(*ast.Ident)
+				ok = cond == ast.Expr(call) || isIdent && core.IsBool(info.TypeOf(cond))
+			}
+			c.S.Decide(ok, "C06", "TERM-PROGRESS", g.QName()+"/loop", c.P.Pos(loop.Pos()),
+				"the removal pass is repeated exactly as long as it reports progress",
+				"the loop that repeats "+pass.Name()+" runs under "+exprStrOr(loop.Cond)+", which can end it while the pass still reports progress: definitions that became unused in the last pass executed are left in the document")
+		}
+	}
+	if n == 0 {
+		c.S.Note("TERM-PROGRESS/loop: the removal pass %s is not called from a for loop", pass.Name())
 	}
 }
